@@ -224,3 +224,254 @@ Section Th.
     split; [now apply wfg_set_terminal | rewrite nstates_set_terminal; lia].
   Qed.
 End Th.
+
+(** * Prepare: shortcut elimination (with the D2 repair) and sort *)
+
+Lemma first_eps_spec es idx next :
+  first_eps es = Some (idx, next) ->
+  nth_error es idx = Some (LEps, next) /\ count_eps (remove_at idx es) + 1 = count_eps es /\
+  (forall e, In e (remove_at idx es) -> In e es).
+Proof.
+  revert idx. induction es as [|[l t] es IH]; intros idx; cbn [first_eps]; [discriminate|].
+  destruct (is_eps l) eqn:Hl.
+  - intros [= <- <-]. destruct l; try discriminate. cbn. unfold count_eps. cbn. repeat split; auto; lia.
+  - destruct (first_eps es) as [[i t']|]; [|discriminate]. intros [= <- <-].
+    destruct (IH i eq_refl) as (H1 & H2 & H3). cbn [nth_error remove_at]. repeat split; auto.
+    + unfold count_eps in *. cbn [filter fst]. rewrite Hl. exact H2.
+    + intros e [<-|He]; [now left | right; auto].
+Qed.
+
+Lemma count_eps_le_length es : count_eps es <= length es.
+Proof. unfold count_eps. induction es as [|e es IH]; cbn; [lia|]. destruct (is_eps (fst e)); cbn; lia. Qed.
+
+Lemma absorb_spec theirs : forall mine,
+  (forall e, In e (absorb mine theirs) -> In e mine \/ In e theirs) /\
+  count_eps (absorb mine theirs) <= count_eps mine + count_eps theirs /\
+  (forall e, In e mine -> In e (absorb mine theirs)).
+Proof.
+  unfold absorb. induction theirs as [|e theirs IH]; intros mine; cbn [fold_left].
+  - repeat split; auto. lia.
+  - destruct (has_edge mine e).
+    + destruct (IH mine) as (H1 & H2 & H3). repeat split; auto.
+      * intros x Hx. destruct (H1 x Hx); auto. right. now right.
+      * unfold count_eps in *. cbn [filter]. destruct (is_eps (fst e)); cbn [length]; lia.
+    + destruct (IH (mine ++ [e])) as (H1 & H2 & H3). repeat split.
+      * intros x Hx. destruct (H1 x Hx) as [Hm|Ht]; [|right; now right].
+        apply in_app_or in Hm as [Hm|[<-|[]]]; [now left | right; now left].
+      * unfold count_eps in *. rewrite filter_app, app_length in H2. cbn [filter] in *.
+        destruct (is_eps (fst e)); cbn [length] in *; lia.
+      * intros x Hx. apply H3. apply in_or_app. now left.
+Qed.
+
+Lemma fold_len_ge (l : list (list edge)) : forall acc s,
+  acc + length (nth s l []) <= fold_left (fun n es => n + length es) l acc.
+Proof.
+  induction l as [|x l IH]; intros acc s; cbn [fold_left].
+  - destruct s; cbn; lia.
+  - destruct s as [|s]; cbn [nth].
+    + specialize (IH (acc + length x) (length l)). rewrite nth_overflow in IH by lia. cbn in IH. lia.
+    + specialize (IH (acc + length x) s). lia.
+Qed.
+
+Lemma total_edges_ge g s : length (edges g s) <= total_edges g.
+Proof. unfold total_edges, edges. pose proof (fold_len_ge (g_tr g) 0 s). lia. Qed.
+
+Lemma list_eqb_nat_refl js : list_eqb Nat.eqb js js = true.
+Proof. induction js as [|x xs IH]; cbn; [reflexivity | now rewrite Nat.eqb_refl]. Qed.
+
+Section SelfLoop.
+  Variable s : nat.
+
+  (** invariant of the loop [for s.simplifySelf(start) {}] *)
+  Record loop_inv (g0 g : graph) (expanded : list nat) : Prop := mkLI {
+    li_wf : wfg g;
+    li_n : nstates g = nstates g0;
+    li_others : forall t, t <> s -> edges g t = edges g0 t;
+    li_nd : NoDup expanded;
+    li_lt : forall x, In x expanded -> x < nstates g0
+  }.
+
+  Lemma simplify_self_total fuel : forall g0 g expanded,
+    loop_inv g0 g expanded -> s < nstates g0 ->
+    (nstates g0 - length expanded) * (total_edges g0 + 1) + count_eps (edges g s) < fuel ->
+    exists g', simplify_self fuel g s expanded = Some g' /\ wfg g' /\ nstates g' = nstates g0.
+  Proof.
+    induction fuel as [|f IH]; intros g0 g expanded Hinv Hs Hf; [now apply Nat.nlt_0_r in Hf|].
+    cbn [simplify_self].
+    destruct (first_eps (edges g s)) as [[idx next]|] eqn:Hfe.
+    2:{ exists g. split; [reflexivity|]. split; [apply Hinv | apply Hinv]. }
+    destruct (first_eps_spec _ _ _ Hfe) as (Hnth & Hcnt & Hsub).
+    destruct Hinv as [Hwf Hn Hoth Hnd Hlt].
+    assert (Hnext : next < nstates g0).
+    { rewrite <- Hn. apply (Hwf s LEps next). eapply nth_error_In; eauto. }
+    set (g1 := set_edges g s (remove_at idx (edges g s))).
+    assert (Hs' : s < nstates g) by lia.
+    assert (He1 : edges g1 s = remove_at idx (edges g s)).
+    { unfold g1. rewrite edges_set_edges, Nat.eqb_refl. apply Nat.ltb_lt in Hs'. now rewrite Hs'. }
+    assert (He1o : forall t, t <> s -> edges g1 t = edges g t).
+    { intros t Ht. unfold g1. rewrite edges_set_edges. destruct (Nat.eqb_spec s t); [congruence | reflexivity]. }
+    assert (Hw1 : wfg g1).
+    { unfold g1. apply wfg_set_edges; [assumption|]. intros l t Hin. apply (Hwf s l t). now apply Hsub. }
+    assert (Hn1 : nstates g1 = nstates g0) by (unfold g1; now rewrite nstates_set_edges).
+    destruct (mem_nat next expanded) eqn:Hm.
+    - (* the target was already merged: the shortcut is just dropped *)
+      apply IH; [constructor; auto | assumption |].
+      + intros t Ht. rewrite He1o by assumption. now apply Hoth.
+      + rewrite He1. lia.
+    - assert (Hnin : ~ In next expanded).
+      { intros Hc. apply Bool.not_true_iff_false in Hm. apply Hm. clear -Hc.
+        induction expanded as [|x l IHl]; [destruct Hc|]. cbn. destruct Hc as [->|Hc]; [now rewrite Nat.eqb_refl | rewrite IHl; auto; apply orb_true_r]. }
+      set (g2 := set_edges g1 s (absorb (edges g1 s) (edges g1 next))).
+      destruct (absorb_spec (edges g1 next) (edges g1 s)) as (Ha1 & Ha2 & Ha3).
+      assert (Hs1 : s < nstates g1) by lia.
+      assert (He2 : edges g2 s = absorb (edges g1 s) (edges g1 next)).
+      { unfold g2. rewrite edges_set_edges, Nat.eqb_refl. apply Nat.ltb_lt in Hs1. now rewrite Hs1. }
+      assert (Hw2 : wfg g2).
+      { unfold g2. apply wfg_set_edges; [assumption|]. intros l t Hin.
+        destruct (Ha1 _ Hin) as [H|H]; eapply Hw1; eauto. }
+      assert (Hn2 : nstates g2 = nstates g0) by (unfold g2; now rewrite nstates_set_edges).
+      set (g3 := if terminal g2 next then set_terminal g2 s else g2).
+      assert (Hw3 : wfg g3) by (unfold g3; destruct (terminal g2 next); [now apply wfg_set_terminal | assumption]).
+      assert (Hn3 : nstates g3 = nstates g0) by (unfold g3; destruct (terminal g2 next); assumption).
+      assert (He3 : forall t, edges g3 t = edges g2 t) by (intros t; unfold g3; destruct (terminal g2 next); reflexivity).
+      assert (Hlen : length expanded < nstates g0).
+      { assert (Hincl : incl (next :: expanded) (List.seq 0 (nstates g0))).
+        { intros x [<-|Hx]; apply in_seq; [lia | specialize (Hlt x Hx); lia]. }
+        assert (Hnd2 : NoDup (next :: expanded)) by (now constructor).
+        pose proof (NoDup_incl_length Hnd2 Hincl) as H. rewrite seq_length in H. cbn in H. lia. }
+      (* how many shortcuts the target contributes *)
+      assert (Hbound : count_eps (edges g1 next) <= total_edges g0 \/ next = s).
+      { destruct (Nat.eq_dec next s) as [->|Hne]; [now right|]. left.
+        rewrite He1o by assumption. rewrite Hoth by assumption.
+        etransitivity; [apply count_eps_le_length | apply total_edges_ge]. }
+      apply IH; [constructor; auto | assumption |].
+      + intros t Ht. rewrite He3. unfold g2. rewrite edges_set_edges.
+        destruct (Nat.eqb_spec s t); [congruence|]. rewrite He1o by assumption. now apply Hoth.
+      + now constructor.
+      + intros x [<-|Hx]; auto.
+      + rewrite He3, He2. cbn [length].
+        destruct Hbound as [Hb | ->].
+        * assert (Hc1 : count_eps (edges g1 s) + 1 = count_eps (edges g s)) by (rewrite He1; exact Hcnt).
+          assert ((nstates g0 - S (length expanded)) * (total_edges g0 + 1) + (total_edges g0 + 1)
+                  = (nstates g0 - length expanded) * (total_edges g0 + 1)) by nia.
+          lia.
+        * (* the state is its own target: nothing new is absorbed *)
+          assert (Hsame : count_eps (absorb (edges g1 s) (edges g1 s)) <= count_eps (edges g1 s)).
+          { clear. generalize (edges g1 s) as l. intros l. unfold absorb.
+            assert (H : forall theirs mine, (forall e, In e theirs -> In e mine) ->
+                          fold_left (fun acc e => if has_edge acc e then acc else acc ++ [e]) theirs mine = mine).
+            { induction theirs as [|e th IHt]; intros mine Hin; cbn [fold_left]; [reflexivity|].
+              assert (He : has_edge mine e = true).
+              { unfold has_edge. apply existsb_exists. exists e. split; [apply Hin; now left|].
+                unfold edge_eqb. destruct e as [l0 t0]. cbn. rewrite Nat.eqb_refl, andb_true_r.
+                destruct l0 as [|i|i|js|]; cbn; rewrite ?Nat.eqb_refl; auto.
+                apply list_eqb_nat_refl. }
+              rewrite He. apply IHt. intros x Hx. apply Hin. now right. }
+            rewrite H; auto. }
+          assert (Hc1 : count_eps (edges g1 s) + 1 = count_eps (edges g s)) by (rewrite He1; exact Hcnt).
+          nia.
+  Qed.
+End SelfLoop.
+
+Lemma simplify_self_ok g s :
+  wfg g -> s < nstates g ->
+  exists g', simplify_self (self_fuel g) g s [] = Some g' /\ wfg g' /\ nstates g' = nstates g.
+Proof.
+  intros Hw Hs. apply (simplify_self_total s (self_fuel g) g g []); [constructor; auto | assumption |].
+  - constructor.
+  - intros x [].
+  - unfold self_fuel. cbn [length]. pose proof (count_eps_le_length (edges g s)). pose proof (total_edges_ge g s). nia.
+Qed.
+
+(** * The depth-first traversal of simplify *)
+Definition GoodV (n : nat) (visited : list nat) : Prop := NoDup visited /\ forall x, In x visited -> x < n.
+
+Lemma goodv_length n visited : GoodV n visited -> length visited <= n.
+Proof.
+  intros [Hnd Hlt].
+  assert (Hincl : incl visited (List.seq 0 n)) by (intros x Hx; apply in_seq; specialize (Hlt x Hx); lia).
+  pose proof (NoDup_incl_length Hnd Hincl) as H. now rewrite seq_length in H.
+Qed.
+
+Lemma mem_nat_iff n l : mem_nat n l = true <-> In n l.
+Proof.
+  induction l as [|x l IH]; cbn; [split; [discriminate | tauto]|].
+  rewrite orb_true_iff, IH, Nat.eqb_eq. split; intros [H|H]; auto.
+Qed.
+
+Definition simp_ok (n : nat) (g : graph) (visited : list nat) (r : option (graph * list nat)) (s : option nat) : Prop :=
+  exists g' v', r = Some (g', v') /\ wfg g' /\ nstates g' = n /\ GoodV n v' /\ incl visited v' /\
+                match s with Some s => In s v' | None => True end.
+
+Theorem simplify_total : forall fuel n g s visited,
+  wfg g -> nstates g = n -> s < n -> GoodV n visited ->
+  1 <= fuel -> (~ In s visited -> n - length visited < fuel) ->
+  simp_ok n g visited (simplify fuel g s visited) (Some s).
+Proof.
+  induction fuel as [|f IH]; intros n g s visited Hw Hn Hs Hg H1 Hf; [lia|].
+  cbn [simplify]. destruct (mem_nat s visited) eqn:Hm.
+  - exists g, visited. apply mem_nat_iff in Hm. repeat split; auto; try apply Hg. apply incl_refl.
+  - assert (Hnin : ~ In s visited) by (intros Hc; apply mem_nat_iff in Hc; congruence).
+    specialize (Hf Hnin).
+    assert (Hg1 : GoodV n (s :: visited)).
+    { destruct Hg as [Hnd Hlt]. split; [now constructor | intros x [<-|Hx]; auto]. }
+    pose proof (goodv_length _ _ Hg1) as Hl1. cbn [length] in Hl1.
+    (* the children *)
+    assert (Hch : forall es g0 v0,
+               wfg g0 -> nstates g0 = n -> GoodV n v0 -> length visited < length v0 ->
+               (forall l t, In (l, t) es -> t < n) ->
+               simp_ok n g0 v0 (children (simplify f) es g0 v0) None).
+    { induction es as [|[l t] es IHes]; intros g0 v0 Hw0 Hn0 Hg0 Hl0 Hes; cbn [children].
+      - exists g0, v0. repeat split; auto; try apply Hg0. apply incl_refl.
+      - assert (Ht : t < n) by (apply (Hes l t); now left).
+        destruct (IH n g0 t v0 Hw0 Hn0 Ht Hg0) as (g2 & v2 & Hr & Hw2 & Hn2 & Hg2 & Hi2 & _).
+        + lia.
+        + intros _. lia.
+        + rewrite Hr.
+          destruct (IHes g2 v2 Hw2 Hn2 Hg2) as (g3 & v3 & Hr3 & Hw3 & Hn3 & Hg3 & Hi3 & _).
+          * pose proof (NoDup_incl_length (proj1 Hg0) Hi2). lia.
+          * intros l' t' Hin. apply (Hes l' t'). now right.
+          * exists g3, v3. repeat split; auto; try apply Hg3. eapply incl_tran; eauto. }
+    destruct (Hch (edges g s) g (s :: visited) Hw Hn Hg1) as (g2 & v2 & Hr & Hw2 & Hn2 & Hg2 & Hi2 & _).
+    + cbn [length]. lia.
+    + intros l t Hin. rewrite <- Hn. eapply Hw; eauto.
+    + rewrite Hr. destruct (simplify_self_ok g2 s Hw2) as (g3 & Hr3 & Hw3 & Hn3); [lia|].
+      rewrite Hr3. exists g3, v2. repeat split; auto; try apply Hg2; try lia.
+      * intros x Hx. apply Hi2. now right.
+      * apply Hi2. now left.
+Qed.
+
+(** * Sorting *)
+Lemma insert_edge_in e l x : In x (insert_edge e l) <-> x = e \/ In x l.
+Proof.
+  induction l as [|y l IH]; cbn [insert_edge].
+  - cbn. intuition.
+  - destruct (priority (fst e) <=? priority (fst y)); cbn [In]; [intuition|]. rewrite IH. intuition.
+Qed.
+
+Lemma sort_edges_in l x : In x (sort_edges l) <-> In x l.
+Proof.
+  unfold sort_edges. induction l as [|e l IH]; cbn [fold_right]; [tauto|].
+  rewrite insert_edge_in, IH. cbn. intuition congruence.
+Qed.
+
+Lemma sort_graph_wf g : wfg g -> wfg (sort_graph g) /\ nstates (sort_graph g) = nstates g.
+Proof.
+  intros Hw. unfold sort_graph, nstates. cbn [g_tr]. rewrite map_length. split; [|reflexivity].
+  intros s l t Hin. unfold edges in Hin. cbn [g_tr] in Hin. unfold nstates. cbn [g_tr]. rewrite map_length.
+  change [] with (sort_edges []) in Hin. rewrite map_nth in Hin. apply -> sort_edges_in in Hin.
+  exact (Hw s l t Hin).
+Qed.
+
+(** * Prepare and compile never run out of fuel and yield a well-formed automaton *)
+Theorem prepare_ok start g :
+  wfg g -> start < nstates g ->
+  exists g', prepare start g = Some g' /\ wfg g' /\ nstates g' = nstates g.
+Proof.
+  intros Hw Hs. unfold prepare.
+  destruct (simplify_total (nstates g + 1) (nstates g) g start [] Hw eq_refl Hs) as (g2 & v2 & Hr & Hw2 & Hn2 & _).
+  - split; [constructor | intros x []].
+  - lia.
+  - intros _. cbn [length]. lia.
+  - rewrite Hr. destruct (sort_graph_wf g2 Hw2) as [Hw3 Hn3]. eexists. split; [reflexivity|]. split; [assumption | lia].
+Qed.
